@@ -67,6 +67,31 @@ CHECKS["C09"] = dict(
   note="Trusts the harness binder/folder (yref) and numref. References from inside a submodule to its parent's or a non-included sibling's typedefs, and enum/bit subset re-listing, are not generated.",
   design="DESIGN.md section 4, C09")
 
+CHECKS["C06"] = dict(
+  category="exploration",
+  technique="rapid model-based generation with a reference expansion of uses (lexical binding in the defining scope, namespace of the user) plus a metamorphic second stage: augment or deviate one instance and require every other instance, and a fresh use, to stay equal to the reference",
+  text="Schemas with groupings at every scope, nested and cross-module uses and same-named definitions in both modules are generated valid by construction; the tree below every using node must equal the reference expansion in names, kinds, folded types (unique units marks make a wrong binding visible), defaults, constraints, nesting and namespace. In half of the cases a second stage adds augments into, or a deviating module with deviations inside, one instance and uses the groupings afresh; the complete trees must again equal the reference, which changes only the targeted instance, and no *Entry may be met twice. Sampling; the evidence counts how many cases had a grouping used twice, nested uses and cross-module uses.",
+  note="Trusts yref (binder, expander, deviation application). refine and uses-augment are outside the claim and not generated.",
+  design="DESIGN.md section 4, C06")
+CHECKS["C07"] = dict(
+  category="exploration",
+  technique="rapid model-based generation of augment sets with a reference graft computed to a fixpoint (order-free by construction), compared in several load orders; planted inapplicable augments must be reported",
+  text="1-6 augments over up to 3 modules and their submodules (targets in own and imported modules, created by uses, submodule content or other augments, inside choice/case/rpc input and output written or not/notification; statement order shuffled) are loaded in model order and two random load orders; every module tree must equal the reference graft with the augmenting module's namespace on grafted nodes and descendants. A quarter of the cases plant a missing target, a leaf/leaf-list target, a name the target already has, or two augments (two modules) adding one name; these must yield an error and no panic.",
+  note="Trusts yref's graft. Implicit cases (and anything below) as targets, unwritten action input/output, anydata/anyxml/rpc nodes as targets, wrong step prefixes and uses-augment are outside the claim and not generated.",
+  design="DESIGN.md section 4, C07")
+CHECKS["C08"] = dict(
+  category="exploration",
+  technique="rapid model-based generation of applicable deviation sequences with a reference application of RFC 7950 7.20.3 in written order; whole-tree comparison doubles as the frame condition; repeated runs expose map-order dependence; planted inapplicable deviations must be reported",
+  text="A base set plus 1-2 deviating modules with 1-5 deviations of 1-3 deviate statements each, every statement drawn to be applicable to the node as the previous ones left it, over all kinds and listed properties, both not-supported options, permuted load order, each case run 6 times in fresh module sets. Every module tree must equal the reference (targets changed exactly as written, everything else untouched); one inapplicable deviation of each listed class is planted in a quarter of the cases and must produce an error.",
+  note="Trusts yref's deviation application. must/unique, delete default on leaf-lists, add-existing/replace-absent of config/mandatory/units, delete of default-valued bounds and two modules deviating one property are outside the claim and not generated.",
+  design="DESIGN.md section 4, C08")
+CHECKS["C12"] = dict(
+  category="exploration",
+  technique="rapid model-based generation with reference attribute computation (nearest explicit config / output; instantiating module) over the expanded model, compared on every node",
+  text="Schemas with explicit config at random depths (valid combinations only), uses across modules and submodules, augments into config-false subtrees/choices/rpc input and output, submodule content and operations; for every node of every module tree ReadOnly(), Namespace().Name and InstantiatingModule() must equal the reference. Sampling over an unbounded space with class counters for explicit config, copied nodes, submodule content and rpc output.",
+  note="Trusts yref. Attributes of implicit case nodes are not judged; config below operations is not generated.",
+  design="DESIGN.md section 4, C12")
+
 PENDING = {}
 
 def main():
